@@ -39,6 +39,14 @@ func runC06(c *Ctx) {
 		want := []string{kind("InputDestroyReady"), "phi(" + kind("InputWeak") + "|" + kind("InputStrong") + ")"}
 		alt := []string{kind("InputDestroyReady"), "phi(" + kind("InputStrong") + "|" + kind("InputWeak") + ")"}
 		c.Check(strings.Join(kinds, ",") == strings.Join(want, ",") || strings.Join(kinds, ",") == strings.Join(alt, ","), "R06.1", "transform.Inputs: primary {Weak|Strong} + DestroyReady on the output kind", fpos(f), strings.Join(kinds, ","), "declared kinds: "+strings.Join(kinds, ","))
+		// the watch on the outputs is left out only when the output kind IS the input kind (same type and same namespace)
+		drStore := func(in ssa.Instruction) bool {
+			st, ok := in.(*ssa.Store)
+
+			return ok && StoreToField("Input", "Kind")(in) && p.Desc(st.Val) == kind("InputDestroyReady")
+		}
+		c.MustCut("R06.1", "no DestroyReady input on the outputs ⊣ {output type == input type}", f, IsReturn, CutSpec{Nodes: drStore, Edges: FactEdge("eq(*.Type,*.Type)")}, 1)
+		c.MustCut("R06.1", "no DestroyReady input on the outputs ⊣ {output namespace == input namespace}", f, IsReturn, CutSpec{Nodes: drStore, Edges: FactEdge("eq(*.DefaultNamespace,*.DefaultNamespace)")}, 1)
 		// the strong/weak choice follows the option
 		okOpt := len(p.EdgeSuccs(f, "true(*param#0.options.inputFinalizers)")) == 1
 		c.Check(okOpt, "R06.1", "transform.Inputs: Strong iff input finalizers are enabled", fpos(f), "yes", "primary input kind does not depend on the inputFinalizers option")
